@@ -8,6 +8,7 @@ def run(ck):
     n = 1500 if ck.quick else 40000
     corr = [T.gen_case(ck.rng, "h") for _ in range(n)]
     K.correspondence(ck, bindir, model, corr)
+    K.reference_leg(ck, model, corr)
     inputs = K.gen_inputs(ck, 700 if ck.quick else 20000, "h")
     e1, f1 = K.chunk_oracle(ck, bindir, "h", inputs, "C03")
     e2, f2 = K.tree_chunk_oracle(ck, bindir, "h", inputs[: (300 if ck.quick else 8000)])
